@@ -601,11 +601,9 @@ namespace link_layer {
         {
             acknowledge( header & nesn_flag );
 
-            // resent PDU?
-            if ( static_cast< bool >( header & sn_flag ) == next_expected_sequence_number_ )
-            {
-                next_expected_sequence_number_ = !next_expected_sequence_number_;
-            }
+            // The received PDU must not be acknowledged: If this is a resent PDU, next_expected_sequence_number_
+            // was already advanced when the PDU was received for the first time. If this is a new PDU, it was
+            // not stored and the central has to send it again.
         }
 
         return next_transmit();
